@@ -195,12 +195,23 @@ def write_document(c, path):
     sr.setConstant(True)
     pr = r1.createProduct()
     pr.setSpecies(nm["S2"])
-    if c["stoich"] == "rule":
+    if c["stoich"] == "rate":
+        # a coefficient with dynamics of its own: starts from an initial assignment (k1 + 1), grows at rate 0.5
+        pr.setId("sr_p")
+        pr.setConstant(False)
+        ia_ = model.createInitialAssignment()
+        ia_.setSymbol("sr_p")
+        ia_.setMath(libsbml.parseL3Formula(f"{nm['k1']} + 1"))
+        rr = model.createRateRule()
+        rr.setVariable("sr_p")
+        rr.setMath(libsbml.parseL3Formula("0.5"))
+    elif c["stoich"] in ("rule", "rule-s1"):
         pr.setId("sr_p")
         pr.setConstant(False)
         rr = model.createAssignmentRule()
         rr.setVariable("sr_p")
-        rr.setMath(libsbml.parseL3Formula(f"{nm['k1']} + 1"))
+        # "rule-s1": the coefficient follows a SPECIES (which may itself start from an initial assignment)
+        rr.setMath(libsbml.parseL3Formula(f"{nm['k1']} + 1" if c["stoich"] == "rule" else f"{nm['S1']} + 1"))
     else:
         pr.setStoichiometry({"one": 1.0, "two": 2.0, "half": 0.5}[c["stoich"]])
         pr.setConstant(True)
@@ -233,7 +244,7 @@ def reference(c):
     k1 = 0.75
     k2 = {"const": 1.25, "rule": 2 * k1, "ia": k1 + 1}[c["k2"]]
     _t, law = law_expr(c["law"], nm, c["ruled"])
-    nu = {"one": 1.0, "two": 2.0, "half": 0.5, "rule": k1 + 1}[c["stoich"]]
+    nu = {"one": 1.0, "two": 2.0, "half": 0.5, "rule": k1 + 1, "rule-s1": None, "rate": None}[c["stoich"]]
 
     def symbol_initial():
         """Value of the species *symbols* (concentration unless substance-only) at t=0."""
@@ -251,7 +262,8 @@ def reference(c):
         env["d"] = k1 * (1 + sym["S2"])
         v1 = law(env)
         v2 = k2 * sym["S2"] * (2 * (k1 + 0.5) if c.get("iachain") else 1.0)
-        return {"S1": -v1, "S2": nu * v1 - v2}, {"r1": v1, "r2": v2}
+        nu_ = (sym["nu"] if c["stoich"] == "rate" else sym["S1"] + 1) if nu is None else nu
+        return {"S1": -v1, "S2": nu_ * v1 - v2}, {"r1": v1, "r2": v2}
 
     extra = {"kq1": k1 + 0.5, "kq2": 2 * (k1 + 0.5)} if c.get("iachain") else {}
     return {"k1": k1, "k2": k2, **extra, "symbol_initial": symbol_initial(), "derivs": derivs}
@@ -294,6 +306,11 @@ def generate(tier):
         add(names=names, hosu=hosu, k2=k2, ruled=ruled, law="allnames")
     for hosu, init, st in it.product((0, 1), ("conc", "amount"), ("one", "half")):
         add(hosu=hosu, init=init, stoich=st, law="compsum")
+    # a stoichiometric coefficient that follows a species, with and without an initial assignment on that species
+    for hosu, init, sia, law, k2 in it.product((0, 1), ("conc", "amount"), (0, 1), ("ma", "ma-comp", "power"), K2):
+        add(hosu=hosu, init=init, sia=sia, law=law, k2=k2, stoich="rule-s1")
+    for hosu, init, law, k2 in it.product((0, 1), ("conc", "amount"), ("ma", "ma-comp", "power"), K2):
+        add(hosu=hosu, init=init, law=law, k2=k2, stoich="rate")
     # compartment whose size attribute (1) is overridden by an initial assignment (2)
     for compia, hosu, init, law, st, names in it.product(("const", "expr"), (0, 1), ("conc", "amount"), ("ma", "ma-comp", "piecewise"), ("one", "half", "rule"), ("plain", "keyword")):
         add(compia=compia, hosu=hosu, init=init, law=law, stoich=st, names=names)
@@ -367,9 +384,15 @@ def compare(m, c, txt, nt):
             return outcome(False, "wrong-parameter", symptom="wrong-parameter-value", nontrivial=nt,
                            detail=f"{nm[pname]} = {float(pv[cand[0]])} expected {ref[pname]} | {txt}")
     # derivatives at three states (given as symbol values)
-    for sv in ({"S1": 0.5, "S2": 2.0}, {"S1": 2.0, "S2": 0.25}, {"S1": 1.0, "S2": 1.0}):
+    for sv in ({"S1": 0.5, "S2": 2.0, "nu": 3.0}, {"S1": 2.0, "S2": 0.25, "nu": 0.5}, {"S1": 1.0, "S2": 1.0, "nu": 1.75}):
         d_amount, _fl = ref["derivs"](sv)
         state = dict(ic)
+        if c["stoich"] == "rate":
+            if "sr_p" not in state:
+                return outcome(False, "species-lost", symptom="coefficient-variable-not-found", nontrivial=nt, detail=f"no variable sr_p among {sorted(ic)} | {txt}")
+            if not _close(float(ic["sr_p"]), ref["k1"] + 1):
+                return outcome(False, "wrong-initial", symptom="wrong-initial-value:coefficient", nontrivial=nt, detail=f"sr_p starts at {ic['sr_p']}, the document says {ref['k1'] + 1} | {txt}")
+            state["sr_p"] = sv["nu"]
         for s in ("S1", "S2"):
             amount = sv[s] if c["hosu"] else sv[s] * V
             state[var_of[s]] = amount if denotes[s] == "amount" else amount / V
@@ -381,6 +404,8 @@ def compare(m, c, txt, nt):
             rhs = m.get_right_hand_side(state, 0.0)
         except Exception as exc:  # noqa: BLE001
             return outcome(False, "model-fails", symptom=f"evaluation-raised:{type(exc).__name__}", nontrivial=nt, detail=f"{type(exc).__name__}: {str(exc)[:200]} | {txt}")
+        if c["stoich"] == "rate" and not _close(float(rhs["sr_p"]), 0.5):
+            return outcome(False, "wrong-derivative", symptom="wrong-derivative:coefficient", nontrivial=nt, detail=f"d sr_p/dt = {float(rhs['sr_p'])}, the rate rule says 0.5 | {txt}")
         for s in ("S1", "S2"):
             e = d_amount[s] if denotes[s] == "amount" else d_amount[s] / V
             g = float(rhs[var_of[s]])
